@@ -322,9 +322,7 @@ def switchTo (s : State) (r : Nat) : State :=
   let s2 := runOps r (s1.R r).script s1
   if (s2.R r).state = .dead then
     let s3 := freeRoutine s2 r
-    match (s3.R r).joiner with
-    | some j => (resume s3 j).1
-    | none => s3
+    resumeOpt s3 (s3.R r).joiner
   else s2
 
 /-- the loop of `Scheduler::schedule` over the swapped-out queue -/
